@@ -1,6 +1,9 @@
 import A2Verif.Lemmas.C12FsPascal
 import A2Verif.Lemmas.C12FsDos
 import A2Verif.Lemmas.C12FsProdos
+import A2Verif.Lemmas.C12FsProdosRead
+import A2Verif.Lemmas.C12FsCpm
+import A2Verif.Lemmas.C12FsWalk
 /-!
 # C12 — the file-system read paths never panic and terminate within their caps (theorems)
 
@@ -618,6 +621,118 @@ theorem prodos_walk_budget_bounded (capErr : Bool) (r : Raw) :
   | error e => simp
   | ok b => exact ⟨(key 33).1, (key 33).2, (key 32).1, (key 32).2⟩
 
+
+/-- decidable form of `Units512`, for concrete images -/
+theorem units512_of_all {r : Raw} (h : r.units.toList.all (fun b => b.length == 512) = true) : Units512 r := by
+  intro i b hb
+  rw [List.all_eq_true] at h
+  have : b ∈ r.units.toList := by
+    rw [Array.mem_toList_iff]
+    exact Array.mem_of_getElem? hb
+  simpa using h b this
+
+theorem fresh_ok {r : Raw} (hu : Units512 r) (src : Repairs) : Fresh (fresh r src) := ⟨rfl, hu⟩
+
+/-- **C12 / ProDOS, identification never panics** on an image of 512-byte blocks: `buf[0x29]`, `buf[0x2A]`, `buf[0x23]`,
+`buf[0x24]` index a 512-byte block, `name[i]` (`i < nibs & 0x0F ≤ 15`) the 15-byte name. -/
+theorem prodos_testImg_no_panic (r : Raw) (hu : Units512 r) : testImg r ≠ .error .panic := by
+  unfold testImg
+  obtain ⟨_, h2⟩ := imgRead_spec hu volKeyBlock
+  cases hr : imgRead r volKeyBlock with
+  | error e => simp
+  | ok buf =>
+    have hl := h2 buf hr
+    simp only []
+    split
+    · simp
+    · have hat : ∀ i, i < 512 → ∃ x, byteAt buf i = .ok x := by
+        intro i hi
+        unfold byteAt
+        rw [List.getElem?_eq_getElem (by omega)]
+        exact ⟨_, rfl⟩
+      obtain ⟨x1, e1⟩ := hat 0x29 (by decide)
+      obtain ⟨x2, e2⟩ := hat 0x2A (by decide)
+      obtain ⟨x3, e3⟩ := hat 0x23 (by decide)
+      obtain ⟨x4, e4⟩ := hat 0x24 (by decide)
+      rw [e1, e2, e3, e4]
+      simp only []
+      split
+      · simp
+      · split
+        · simp
+        · split
+          · simp
+          · have hn : (slice buf 5 15).length = 15 := by
+              unfold slice; simp only [List.length_take, List.length_drop]; omega
+            have hloop : ∀ (idxs : List Nat), (∀ i ∈ idxs, i < 15) → volNameLoop (slice buf 5 15) idxs ≠ .error .panic := by
+              intro idxs
+              induction idxs with
+              | nil => intro _; simp [volNameLoop]
+              | cons i rest ih =>
+                intro hi
+                unfold volNameLoop byteAt
+                rw [List.getElem?_eq_getElem (by rw [hn]; exact hi i List.mem_cons_self)]
+                simp only []
+                split
+                · exact ih (fun j hj => hi j (List.mem_cons_of_mem _ hj))
+                · simp
+            unfold byteAt
+            rw [List.getElem?_eq_getElem (by rw [hn]; decide)]
+            simp only []
+            split
+            · simp
+            · apply hloop
+              intro i hi
+              unfold rng at hi
+              rw [List.mem_range'_1] at hi
+              have : buf.getD 4 0 % 16 < 16 := Nat.mod_lt _ (by decide)
+              omega
+
+/-- **C12 / ProDOS, the main statement for `catalog`, `get`, `stat` (repaired `read_index_block`): for every image of
+512-byte blocks — any number of blocks, any bytes — on a freshly mounted disk the volume listing, `get` of any non-empty
+path and `stat` do not panic; the listing and `get` leave the state unchanged and a listing has at most 1300 rows.**
+(Whichever bitmap block count the source uses — `src`. `get("")` is `&path[0..1]` on an empty string in `normalize_path`: an argument a listing cannot produce for a file; the
+walks `tree`/`glob` are `prodos_walk_budget_bounded`.) -/
+theorem prodos_reads_fixed_no_panic (r : Raw) (hu : Units512 r) (src : Repairs) :
+    (catalog [47] (fresh r src)).1 ≠ .error .panic ∧ (catalog [47] (fresh r src)).2 = fresh r src ∧
+    (∀ rows, (catalog [47] (fresh r src)).1 = .ok rows → rows.length ≤ 1300) ∧
+    (∀ path, path ≠ [] → (getV true path (fresh r src)).1 ≠ .error .panic ∧ (getV true path (fresh r src)).2 = fresh r src) ∧
+    (statFree (fresh r src)).1 ≠ .error .panic := by
+  have hf := fresh_ok hu src
+  have hcat : SafeAt (fun rows => rows.length ≤ 13 * 100) (catalog [47]) (fresh r src) := by
+    unfold catalog
+    apply SafeAt.bind (findDirKeyBlock_root_safe hf); intro key _
+    exact catalogLoop_safe hf 100 key
+  refine ⟨hcat.2.1, hcat.1, hcat.2.2, ?_, ?_⟩
+  · intro path hp
+    have := getV_safe hf hp
+    exact ⟨this.2.1, this.1⟩
+  · unfold statFree
+    rw [bind_apply]
+    obtain ⟨g1, g2, _⟩ := getVolHeader_safe hf
+    cases hg : getVolHeader (fresh r src) with
+    | mk res d' =>
+      rw [hg] at g1 g2
+      simp only [] at g1 g2
+      subst g1
+      cases res with
+      | error e => simp only []; exact fun hh => g2 (by cases hh; rfl)
+      | ok h => exact numFreeBlocks_fresh_ne_panic hf rfl
+
+/-- a volume `V` (280 blocks claimed, directory blocks 2 → 3) with one tree file `T`: master index block 4 whose slot 0 is a
+hole and whose slot 1 points at the (empty) index block 5; the entry says `EOF = 0` -/
+def eofImg : Raw :=
+  let hdr : Bytes := [0xF1, 86] ++ List.replicate 29 0 ++ [0x27, 0x0D, 1, 0, 6, 0, 0x18, 0x01]
+  let ent : Bytes := [0x31, 84] ++ List.replicate 14 0 ++ [6, 4, 0, 3, 0, 0, 0, 0] ++ List.replicate 15 0
+  let key : Bytes := [0, 0, 3, 0] ++ hdr ++ ent
+  { unitLen := 512, units := #[z512, z512, key ++ List.replicate (512 - key.length) 0, z512, [0, 5] ++ List.replicate 510 0, z512] }
+
+/-- **defect P2**: the image is identified as ProDOS, `get T` underflows `entry.eof() - *eof` in `read_index_block` as
+written (the hole moved the running count past the recorded end of file) and succeeds with the repair -/
+example : Units512 eofImg ∧ (testImg eofImg).toOption = some true ∧ cls (getV false [84] (fresh eofImg)).1 = .panic ∧
+    cls (getV true [84] (fresh eofImg)).1 = .ok ∧ cls (catalog [47] (fresh eofImg)).1 = .ok :=
+  ⟨units512_of_all (by decide +kernel), by decide +kernel, by decide +kernel, by decide +kernel, by decide +kernel⟩
+
 /-! ### ProDOS: concrete directory graphs -/
 
 /-- a sub-directory entry `A` with the given key pointer -/
@@ -644,5 +759,202 @@ example : (walkNode false true cycImg 4 6 2 ⟨0, 0⟩).2.visits = 6 ∧ (walkNo
     (walkNode true false cycImg 4 6 2 ⟨0, 0⟩).2.visits = 5 := by decide +kernel
 
 end Prodos
+
+/-! ## CP/M -/
+section Cpm
+open A2Verif.Fs.Cpm A2Verif.C12FsId.Cpm
+open A2Verif.Read.Cpm (Dpb)
+
+theorem readLoopV_asWritten (absIdx : Bool) (d : Dpb) (r : Raw) (dir : Dir) (fi : FileInfo) :
+    ∀ (es : List (Nat × Nat)) (bc prev : Nat) (g : Got), readLoopV false absIdx d r dir fi es bc prev g = readLoop absIdx d r dir fi es bc prev g := by
+  intro es
+  induction es with
+  | nil => intro bc prev g; rfl
+  | cons p rest ih =>
+    intro bc prev g
+    obtain ⟨k, i⟩ := p
+    unfold readLoopV readLoop
+    cases dir[i]? with
+    | none => rfl
+    | some fx =>
+      simp only [ih, Bool.false_eq_true, if_false]
+      rfl
+
+theorem splitUserFilename_ne_panic (x : Bytes) : splitUserFilename x ≠ .error .panic := by
+  unfold splitUserFilename
+  split
+  · simp
+  · split
+    · split <;> simp
+    · simp
+  · simp
+
+theorem stdAccessAndTyp_ne_panic (x : Bytes) : stdAccessAndTyp x ≠ .error .panic := by
+  unfold stdAccessAndTyp
+  cases h : splitUserFilename x with
+  | error e => simp only []; intro hh; cases hh; exact splitUserFilename_ne_panic x h
+  | ok p => simp
+
+/-- **C12 / CP/M, the `false` variants are the concrete model**: `statV false`, `getV false` are `Fs.Cpm.statFree`,
+`Fs.Cpm.get` (tied byte-exactly to the real code by family `fsc`). -/
+theorem cpm_asWritten (d : Dpb) (r : Raw) (name : Bytes) (absIdx : Bool) :
+    statV false d r = statFree d r ∧ getV false d r name absIdx = Fs.Cpm.get d r name absIdx := by
+  constructor
+  · unfold statV statFree
+    cases getDirectory d r with
+    | error e => rfl
+    | ok dir => unfold numFreeBlocksV numFreeBlocks; simp
+  · unfold getV Fs.Cpm.get
+    cases getDirectory d r with
+    | error e => rfl
+    | ok dir =>
+      simp only []
+      cases buildFiles d d.v3 dir with
+      | error e => rfl
+      | ok files =>
+        simp only []
+        cases getFile name files with
+        | none => rfl
+        | some fi =>
+          simp only []
+          split
+          · rfl
+          · cases stdAccessAndTyp name with
+            | error e => rfl
+            | ok p => simp only [readLoopV_asWritten]
+
+/-- **C12 / CP/M, identification never panics** when the directory has a multiple of four entries (every DPB of
+`bios/dpb.rs`: 48, 64, 128, …): the only index in `build_files` is the time stamp entry `4·(1+i/4)−1` of entry `i`. -/
+theorem cpm_testImg_no_panic (d : Dpb) (r : Raw) (h4 : dirEntries d % 4 = 0) : testImg d r ≠ .error .panic := by
+  unfold testImg
+  cases hd : getDirectory d r with
+  | error e => simp
+  | ok dir =>
+    simp only []
+    have hl := getDirectory_length hd
+    have := buildFiles_ne_panic (d := d) (v3 := d.v3) (dir := dir) (by rw [hl]; exact h4)
+    cases hb : buildFiles d d.v3 dir with
+    | ok files => simp
+    | error e => cases e <;> simp; exact this hb
+
+/-- **C12 / CP/M, the main statement (repaired code): on every image that `test_img` accepts — any bytes, any DPB
+with CP/M 3 directory entries allowed (the CLI always passes `[3,1,0]`) — `stat`, `catalog`, `glob` and `get` of any
+name do not panic.**  `read_file`'s `dir.get_entry` only sees indices `build_files` collected while walking the same
+directory (`buildFiles_entriesLt`); block pointers go through `read_block`, which refuses what is outside the image. -/
+theorem cpm_mounted_reads_fixed_no_panic (d : Dpb) (r : Raw) (hv3 : d.v3 = true) (hm : testImg d r = .ok true) :
+    statV true d r ≠ .error .panic ∧ catalog d r ≠ .error .panic ∧ globV d r ≠ .error .panic ∧
+    ∀ name absIdx, getV true d r name absIdx ≠ .error .panic := by
+  unfold testImg at hm
+  cases hd : getDirectory d r with
+  | error e => rw [hd] at hm; simp at hm
+  | ok dir =>
+    rw [hd] at hm
+    simp only [] at hm
+    cases hb : buildFiles d d.v3 dir with
+    | error e => rw [hb] at hm; cases e <;> simp at hm
+    | ok files =>
+      have hb' : buildFiles d true dir = .ok files := by rw [← hv3]; exact hb
+      refine ⟨?_, ?_, ?_, ?_⟩
+      · unfold statV numFreeBlocksV
+        rw [hd]
+        simp only [if_true]
+        split <;> simp
+      · unfold catalog
+        rw [hd]
+        simp only [hb']
+        simp
+      · unfold globV
+        rw [hd]
+        simp only [hb]
+        simp
+      · intro name absIdx
+        unfold getV
+        rw [hd]
+        simp only [hb]
+        cases hg : getFile name files with
+        | none => simp
+        | some fi =>
+          simp only []
+          split
+          · simp
+          · cases hs : stdAccessAndTyp name with
+            | error e =>
+              simp only []
+              intro hh
+              cases hh
+              exact stdAccessAndTyp_ne_panic name hs
+            | ok p =>
+              simp only []
+              exact readLoopV_fixed_ne_panic absIdx d r dir fi fi.entries 0 0 _
+                (fun q hq => buildFiles_entriesLt hb fi (getFile_mem hg) q hq)
+
+/-- **C12 / CP/M, the code as written: `stat` panics exactly when the directory references more blocks than the
+volume has** (`user_blocks as u16 - used as u16`), which `test_img` does not look at. -/
+theorem cpm_stat_asWritten_panic_iff (d : Dpb) (r : Raw) (dir : Dir) (hd : getDirectory d r = .ok dir) :
+    statFree d r = .error .panic ↔
+      (reservedBlocks d + ((usedPtrs d dir).filter (· > 0)).length) % 65536 > userBlocks d % 65536 := by
+  unfold statFree numFreeBlocks
+  rw [hd]
+  simp only []
+  split <;> simp_all
+
+/-! ### CP/M: concrete images -/
+
+/-- a tiny DPB: 1K blocks, extent mask 1, 8 blocks, 4 directory entries in block 0 -/
+def dpb0 : Dpb := { bsh := 3, exm := 1, dsm := 7, drm := 3, al0 := 0x80, al1 := 0, v3 := true }
+/-- an extent of user 0 named `A`, extent number `ex`, 128 records, all 16 block pointers `ptr` -/
+def extA (ex ptr : Nat) : Bytes := [0, 65] ++ List.replicate 10 32 ++ [ex, 0, 0, 128] ++ List.replicate 16 ptr
+def delE : Bytes := List.replicate 32 0xE5
+def cpmImg (ents : List Bytes) : Raw :=
+  { unitLen := 1024, units := ⟨(ents.flatten ++ List.replicate (1024 - ents.flatten.length) 0xE5) :: List.replicate 7 (List.replicate 1024 0xE5)⟩ }
+
+/-- a good volume: one file `A` with one block -/
+def cpmGood : Raw := cpmImg [[0, 65] ++ List.replicate 10 32 ++ [0, 0, 0, 8, 1] ++ List.replicate 15 0, delE, delE, delE]
+/-- **witness C1**: one extent whose 16 pointers are all non-zero on a volume of 8 blocks -/
+def cpmOverfull : Raw := cpmImg [extA 0 1, delE, delE, delE]
+/-- **witness C2**: two entries of `A` with extent numbers 0 and 1 although one entry covers both (`EXM = 1`) -/
+def cpmOverlap : Raw := cpmImg [extA 0 0, extA 1 0, delE, delE]
+
+/-- non-vacuity: the good volume is identified and everything answers -/
+example : (testImg dpb0 cpmGood).toOption = some true ∧ cls (statV false dpb0 cpmGood) = .ok ∧ cls (catalog dpb0 cpmGood) = .ok ∧
+    ((Fs.Cpm.get dpb0 cpmGood [65]).toOption.map (·.chunks.length)) = some 1 := by decide +kernel
+/-- **defect C1**: identified as CP/M, `stat` panics as written, answers 0 free blocks with the repair -/
+example : (testImg dpb0 cpmOverfull).toOption = some true ∧ cls (statFree dpb0 cpmOverfull) = .panic ∧
+    (statV true dpb0 cpmOverfull).toOption = some 0 := by decide +kernel
+/-- **defect C2**: identified as CP/M, `get A` hits `panic!("unreachable: extents were not sorted")` as written, is
+`BadFormat` with the repair -/
+example : (testImg dpb0 cpmOverlap).toOption = some true ∧ cls (Fs.Cpm.get dpb0 cpmOverlap [65]) = .panic ∧
+    cls (getV true dpb0 cpmOverlap [65]) = .err := by decide +kernel
+
+end Cpm
+
+/-! ## FAT: total work of `tree` and `glob` -/
+section Fat
+open A2Verif.C12FsWalk
+
+/-- **C12 / FAT, bounded time of the recursive directory walks (repaired code).**  `fat::Disk::tree_node` and
+`glob_node` have the shape of `C12FsWalk.walk` (nesting cap; visit counter with limit `cluster_count_usable()+1`; for
+every entry of `build_files`: a sub-directory is loaded with `get_directory(Some(ptr))?` and walked with `?`, then the
+metadata step `get_cluster_chain_length(..)?`).  For **every** instance of the file-system specific parts — any state, any
+directory contents (cycles, sub-directories shared between parents), any behaviour of loading and of the metadata
+step, either flavour of the nesting-cap branch — the walk enters at most `limit + 1` directories; the nesting is at
+most `depth` levels by construction. -/
+theorem fat_walk_budget_bounded {σ δ : Type} (k : Skel σ δ) (capErr : Bool) (limit depth : Nat) (root : δ) (st : σ) :
+    (walk k true capErr limit depth root (st, 0)).2.2 ≤ limit + 1 ∧
+    ((walk k true capErr limit depth root (st, 0)).1 = true → (walk k true capErr limit depth root (st, 0)).2.2 ≤ limit) :=
+  ⟨(walk_post k capErr limit depth root (st, 0) (Nat.zero_le _)).1, (walk_post k capErr limit depth root (st, 0) (Nat.zero_le _)).2.1⟩
+
+/-- a directory graph without cycles: level `n` has two sub-directory entries, both leading to level `n+1`, down to
+level 4 (the FAT image of harness case `dag depth=… fan=2`) -/
+def dagSkel : Skel Unit Nat :=
+  { items := fun lvl => if lvl < 4 then [⟨some (lvl + 1), fun s => (true, s)⟩, ⟨some (lvl + 1), fun s => (true, s)⟩] else []
+    load := fun ptr s => (some ptr, s) }
+
+/-- **defect F1** in the small: without the budget the walk enters `31 = 2⁵ − 1` directories of a graph that has 5 (one per
+path; `2²¹ − 1` for 20 levels: the real `tree` does not return, `hang:fat/tree`); with a budget of 5 it stops at 6 -/
+example : (walk dagSkel false true 5 65 0 ((), 0)).2.2 = 31 ∧ (walk dagSkel false true 5 65 0 ((), 0)).1 = true ∧
+    (walk dagSkel true true 5 65 0 ((), 0)).2.2 = 6 ∧ (walk dagSkel true true 5 65 0 ((), 0)).1 = false := by decide +kernel
+
+end Fat
 
 end A2Verif.C12Fs
